@@ -185,7 +185,14 @@ class PathSum:
         return None
 
     def split(self, st, t, variant):
-        """-> (st_yes or None, st_no or None)"""
+        """-> (st_yes or None, st_no or None).  Conditions on Result/Option are always recorded in terms of Ok / Some,
+        whichever variant the source happens to test."""
+        if variant == ERR:
+            n, y = self.split(st, t, OK)
+            return y, n
+        if variant == NONE:
+            n, y = self.split(st, t, SOME)
+            return y, n
         d = self.decided(st, t, variant)
         if d is True:
             return st, None
@@ -878,6 +885,21 @@ class PathSum:
     # -- Result / Option combinators
     def combinator(self, callee, v, st, site, node):
         head = callee
+        if head.endswith("::find") and ("Iterator" in head or "iter::" in head) and len(v) == 2 and v[1][0] == "closure":
+            # find(it, pred): Some(item) with pred(item) true for an element of `it`, or None when no element satisfies it
+            item = ("iter_item", v[0], site)
+            out = []
+            for o in self.apply_closure(v[1][1], [item], st):
+                if o[0] != "val":
+                    out.append(o)
+                    continue
+                y, n = self.split_bool(o[1], o[2])
+                if y:
+                    out.append(("val", y, ("ctor", SOME, (item,))))
+            s2 = st.fork()
+            s2.add_effect(("call", head, tuple(v), site))
+            out.append(("val", s2, ("ctor", NONE, ())))
+            return out
         for enum, okv, errv in ((RESULT, OK, ERR), (OPTION, SOME, NONE)):
             if not head.startswith(enum + "::"):
                 continue
